@@ -1245,6 +1245,12 @@ class SRef(SV):
         return "SRef[%s](%s)" % (self.cls, self.term)
 
 
+class UnmodelledAttribute(AttributeError):
+    """An attribute that the contract's setup never gave the object was read.  If this escapes the function under
+    contract it says the *contract* is incomplete (e.g. the constructor now keeps something more), not that the code is
+    wrong: the run is reported as outside the verified subset, never as a violation."""
+
+
 class SObj:
     """An object with concrete identity whose fields hold (possibly symbolic)
     values.  `cls` is the real class (for method lookup) or None for an
@@ -1270,6 +1276,8 @@ class SObj:
             del self._fields[k]
         except KeyError:
             raise AttributeError(k)
+        # remembered: reading it later is a genuine AttributeError of the code, not a gap of the contract's setup
+        object.__getattribute__(self, "__dict__").setdefault("_deleted", set()).add(k)
 
     def __repr__(self):
         return "<SObj %s>" % self._name
